@@ -229,7 +229,7 @@ macro_rules! fixed_mul_div {
             type Output = Self;
             #[inline(always)]
             fn neg(self) -> Self {
-                Self(-self.0)
+                Self(self.0.wrapping_neg())
             }
         }
     };
